@@ -12,6 +12,13 @@ TB_A = ("Trusted: CPython operator dispatch on engine.forksym.Lin, z3 linear ari
         "Stubs: tqdm -> identity, stderr -> sink.")
 
 CHECKS = {
+    "C16": dict(
+        technique="bounded symbolic execution (symbolic integer candidate values, z3 LIA) of Entry/Table + inductive single-update step",
+        text="Candidate values are unconstrained symbolic integers; for every policy pair, tag pattern, batching and placement in the bound "
+             "(standalone entries, cells of 1-3 dimensional tables) every feasible value ordering of the real update/combine code is explored "
+             "and z3 proves value and tags equal to the specification; a single-update inductive step from an arbitrary invariant-satisfying "
+             "pre-state extends the claim to histories of any length.",
+        design="5/C16", engine="forksym"),
     "C06": dict(
         technique="bounded symbolic execution (affine costs, z3 LIA) of the cost evaluator vs. independent recount",
         text="For every valid mapping (and every ordered/unordered labelling in the bound) of an independent enumerator, the real node_event, reconciliation_cost, labeling_cost and cost are executed on symbolic unit costs and z3 proves the resulting affine form equal to the oracle recount for EVERY non-negative integer cost vector (plus the concrete infinite transfer cost).",
